@@ -355,7 +355,7 @@ pub enum KeyCommand {
     },
     Expire {
         key: Vec<u8>,
-        seconds: u64,
+        seconds: i64,
     },
     PExpire {
         key: Vec<u8>,
@@ -1222,7 +1222,12 @@ impl UnifiedCommandExecutor {
             }
             
             KeyCommand::Expire { key, seconds } => {
-                let result = self.storage.expire(db, &key, Duration::from_secs(seconds))?;
+                // as for the command sent directly: a time that is not positive deletes the key
+                let result = if seconds <= 0 {
+                    self.storage.delete(db, &key)?
+                } else {
+                    self.storage.expire(db, &key, Duration::from_secs(seconds as u64))?
+                };
                 Ok(RespFrame::Integer(if result { 1 } else { 0 }))
             }
             
@@ -1235,8 +1240,15 @@ impl UnifiedCommandExecutor {
                 let ttl = self.storage.ttl(db, &key)?;
                 match ttl {
                     Some(duration) => {
+                        // rounded up, as for the command sent directly
                         let secs = duration.as_secs() as i64;
-                        Ok(RespFrame::Integer(if secs == 0 && duration.subsec_millis() > 0 { 1 } else { secs }))
+                        Ok(RespFrame::Integer(if duration.is_zero() {
+                            -2
+                        } else if duration.subsec_nanos() > 0 {
+                            secs + 1
+                        } else {
+                            secs
+                        }))
                     }
                     None => {
                         if self.storage.exists(db, &key)? {
@@ -2784,7 +2796,7 @@ impl CommandParser {
             return Err(FerrousError::Command(CommandError::WrongNumberOfArguments("EXPIRE".into())));
         }
         let key = Self::extract_bytes(&frames[1])?;
-        let seconds = Self::extract_string(&frames[2])?.parse::<u64>()
+        let seconds = Self::extract_string(&frames[2])?.parse::<i64>()
             .map_err(|_| FerrousError::Command(CommandError::InvalidIntegerValue))?;
         Ok(KeyCommand::Expire { key, seconds })
     }
